@@ -17,41 +17,41 @@ CHECKS = {
  "C01": ("hw", "differential runtime monitoring against the CPU (ptrace single-step oracle) + census replay", "2.1, 4/C01",
          "Every trial's complete post-state (16 GPRs, 16 XMM, FS/GS base, RIP, 52 KiB of mirrored memory) is compared with the CPU's for the same bytes and pre-state; held = no disagreement in the sampled trials of ~270 data-processing forms x operand shapes x flag states, and every form of the pinned census still executes. A persistent-machine stratum reuses one emulator for 250 consecutive trials (state reset through the API only), so hidden state such as caches is exposed to the same per-step comparison.", HW_NOTE),
  "C02": ("hw", "differential runtime monitoring against the CPU (ptrace single-step oracle), flag comparison masked to architecturally defined flags", "2.1, 4/C02",
-         "CF/PF/ZF/SF/OF/DF after every trial are compared with the CPU's wherever the SDM defines them (dynamic rules for shift counts); incoming flags are random so stale flags are visible; shift counts and imm8 values are enumerated completely.", HW_NOTE),
+         "CF/PF/ZF/SF/OF/DF after every trial are compared with the CPU's wherever the SDM defines them (dynamic rules for shift counts); incoming flags are random so stale flags are visible; shift counts and imm8 values are enumerated completely. A persistent-machine stratum (half of the machines with do-nothing hooks attached) shows that flags depend on the instruction and its inputs only, not on who is listening or on what ran before.", HW_NOTE),
  "C03": ("hw", "differential runtime monitoring against the CPU (ptrace single-step oracle), exhaustive Jcc x flag-state enumeration", "2.1, 4/C03",
          "RIP after every Jcc/JMP/CALL/RET/JRCXZ/JECXZ trial equals the CPU's; all 64 flag states x 16 conditions x rel8/rel32 are enumerated, indirect targets and RCX values sampled; indirect branches through memory get every addressing shape (32-bit addressing, FS/GS bases crossing 2^32), a jump that fails where the CPU completes is reported here too, and a persistent-machine stratum keeps the shadow call stack / trace alive across trials.", HW_NOTE),
  "C04": ("hw", "differential runtime monitoring against the CPU (ptrace single-step oracle) with executable K-models for the recorded one-slot deviation", "2.1, 3, 4/C04",
-         "RSP, the whole stack window and popped registers after PUSH/POP/CALL/RET are compared with the CPU's. The pinned tree deviates by one stack slot (known finding, asserted by existing tests); every trial must equal either the CPU or the K-model of that deviation exactly. The stack region straddles a 64 KiB boundary (carries out of SP), generated stack programs (incl. returns no call matches) run on a free-running mirror with every step judged against the CPU, plus a persistent-machine stratum.", HW_NOTE),
+         "RSP, the whole stack window and popped registers after PUSH/POP/CALL/RET are compared with the CPU's. The pinned tree deviates by one stack slot (known finding, asserted by existing tests); every trial must equal either the CPU or the K-model of that deviation exactly. The stack region straddles a 64 KiB boundary (carries out of SP), generated stack programs (incl. returns no call matches) run on a free-running mirror with every step judged against the CPU, plus a persistent-machine stratum. A refused instruction must leave RSP, registers and memory exactly as the CPU leaves them after the fault (fault-state comparison), and refusals of stack instructions that the CPU completes (or the reverse) are reported here as well.", HW_NOTE),
  "C05": ("hw", "differential runtime monitoring against the CPU (ptrace single-step oracle), exhaustive LEA ModRM/SIB/prefix enumeration", "2.1, 4/C05",
          "LEA results for every ModRM/SIB/REX.XB/0x67/segment shape and the location of bytes touched by MOV-family probes equal the CPU's, with steered and wrap-around register values; every other implemented form with an explicit memory operand (ALU, shifts, CMOV, MOVZX, indirect JMP/CALL, PUSH ...) is judged as an address probe as well, with regions that straddle 64 KiB and 4 GiB boundaries.", HW_NOTE),
  "C06": ("hw", "differential runtime monitoring against the CPU (ptrace single-step oracle) with fault-steered inputs", "2.1, 4/C06",
-         "step() returns Err exactly when the CPU raises a fault (SIGFPE/SIGSEGV/SIGBUS/SIGILL) for implemented forms: dividends around the quotient-overflow boundary, operands at area edges, read-only, unmapped, non-canonical and misaligned positions.", HW_NOTE),
+         "step() returns Err exactly when the CPU raises a fault (SIGFPE/SIGSEGV/SIGBUS/SIGILL) for implemented forms: dividends around the quotient-overflow boundary, operands at area edges, read-only, unmapped, non-canonical and misaligned positions. Further: instructions that end exactly at / are cut off by the end of the code region (fetch faults), byte strings the reference decoder rejects (LOCK where none is allowed, reserved encodings - when the CPU refuses them, so must the step), and after a refusal on both sides the emulator's registers and memory must be as untouched as the CPU's ('reports an error instead of producing a result').", HW_NOTE),
  "C07": ("model", "runtime monitoring of call histories against a reference register file (model written from the SDM), full read-back after every call", "2.2, 4/C07",
-         "Every reg_write_*/reg_read_* call of generated histories is mirrored on a 16x64-bit reference register file; after every call all 68 views + RIP are read back and compared, and invalid calls (value too large, wrong width or class) must return Err with nothing changed. Single-write and rejection layers are enumerated completely.", MODEL_NOTE),
+         "Every reg_write_*/reg_read_* call of generated histories is mirrored on a 16x64-bit reference register file; after every call all 68 views + RIP are read back and compared, and invalid calls (value too large, wrong width or class) must return Err with nothing changed. Single-write and rejection layers are enumerated completely; rejected values include those whose excess bits sit only in the top byte / word / dword.", MODEL_NOTE),
  "C08": ("model", "runtime monitoring of access histories against a reference byte map, complete area-list comparison after every operation", "2.2, 4/C08",
          "All typed/byte API accessors and guest MOV/MOVUPS loads and stores over random layouts (adjacent areas, areas at 2^63 and ending at 2^64) with edge addresses and extreme lengths; results and the complete memory image must equal a little-endian reference byte map after every operation; failed accesses must not panic and must change nothing. A form sweep puts the memory operand of every implemented instruction form on each edge of an area (last valid position, one past, first byte, one before): the verdict comes from the same machine with a larger area - identical results when every byte is mapped, an error and no change when one is not. Neutral host-side operations are interleaved.", MODEL_NOTE),
  "C09": ("model", "runtime monitoring: exhaustive mask x access-path enumeration plus mem_prot histories and ELF-loaded machines against a 3-bit permission model", "2.2, 4/C09",
          "Each of 22 access paths (API, guest load/store/RMW, MOVUPS, PUSH, POP, CALL, RET, fetch) is exercised under all 8 masks on fresh areas, the constructor's code area, after mid-history mem_prot changes and on ELF-loaded segments; a missing needed bit must give Err with the area list unchanged; success is only demanded for masks real paging can express. A form sweep steps one encoding of every implemented form with a memory operand under all 8 masks (what the operand needs comes from iced's operand-access table; counts / sources often value-preserving), and stores that start in one area and end in an adjacent one with another mask must fail without changing a byte.", MODEL_NOTE),
  "C10": ("model", "runtime monitoring of allocation histories with an invariant hook (pairwise-disjoint area list) and an interval-set transition model after every call", "2.2, 4/C10",
-         "After every creation / anywhere / stack / resize / mem_prot / brk call the area list is walked: pairwise disjoint, lengths consistent, untouched areas byte-identical, overlap requests rejected, anywhere allocations fresh and correctly filled, resize succeeds iff no collision and keeps prefix / zero-fills growth. Non-termination is caught by the supervisor's progress watchdog and confirmed alone.", MODEL_NOTE),
+         "After every creation / anywhere / stack / resize / mem_prot / brk call the area list is walked: pairwise disjoint, lengths consistent, untouched areas byte-identical, overlap requests rejected, anywhere allocations fresh and correctly filled, resize succeeds iff no collision and keeps prefix / zero-fills growth. Resizes to sizes no host can allocate must fail and leave the area exactly as it was. Non-termination is caught by the supervisor's progress watchdog and confirmed alone.", MODEL_NOTE),
  "C17": ("model", "runtime monitoring: guest-side observation (stepped POP instructions) of the entry frame against the System V layout, area-list hook for placement", "2.2, 4/C17",
-         "For generated argv/envp lists, stack sizes and machines, the frame is observed the way a guest does (POP, byte-wise string reads) and compared with argc / pointers / NULLs / strings; alignment, freshness, writability, disjointness from the program image (taken from the ELF file's own program headers, not from the loader's area list) and the stack space below RSP are checked; pre-existing layouts include empty areas where strings and frame land and a last-created area in the upper half of the address space.", MODEL_NOTE),
+         "For generated argv/envp lists, stack sizes and machines, the frame is observed the way a guest does (POP, byte-wise string reads) and compared with argc / pointers / NULLs / strings; alignment, freshness, writability, disjointness from the program image (taken from the ELF file's own program headers, not from the loader's area list) and the stack space below RSP are checked; pre-existing layouts include empty areas where strings and frame land and a last-created area in the upper half of the address space. The frame is popped into every general-purpose register in turn, and afterwards an older area must not be allowed to grow over what the call created.", MODEL_NOTE),
  "C13": ("model", "runtime monitoring of guest brk/store/load histories against a (base, break, byte map) model with the area-list invariant hook", "2.2, 4/C13",
-         "Guest-level histories (real syscall / MOV instructions stepped through the emulator) of break queries, grows, shrinks and regrows interleaved with stores and loads at heap edges, under surrounding layouts that get in the heap's way; the break returned, the readability/writability of every byte below it and the survival of stored bytes are compared with the model after every operation. The handler is installed alone, with others, by repeated calls and again in the middle of the run; neighbours sit on the last byte of the pages the handler tries, empty areas on the heap base; neutral host-side operations are interleaved.", MODEL_NOTE),
+         "Guest-level histories (real syscall / MOV instructions stepped through the emulator) of break queries, grows, shrinks and regrows interleaved with stores and loads at heap edges, under surrounding layouts that get in the heap's way; the break returned, the readability/writability of every byte below it and the survival of stored bytes are compared with the model after every operation. The handler is installed alone, with others, by repeated calls and again in the middle of the run; neighbours sit on the last byte of the pages the handler tries, empty areas on the heap base; neutral host-side operations are interleaved; eight further load forms (MOVZX, MOVSXD, ADD, MOVUPS ...) read with their operand ending exactly at the break.", MODEL_NOTE),
  "C14": ("model", "runtime monitoring of guest pipe/read/write histories against per-pipe FIFO queues (unique byte stream, final drain = conservation) plus a probe hook log", "2.2, 4/C14",
-         "Every read's count and bytes are compared with a VecDeque model per pipe, bytes beyond the returned count must stay untouched, every pipe is drained at the end, and syscalls on non-pipe descriptors must show up in the log of a hook registered after handle_syscalls. Further strata: thousands of pipes in one machine (descriptor numbers are 16-bit random draws: collisions only show there), write sources that span two adjacent areas, installation histories as in C13, neutral host-side operations.", MODEL_NOTE),
+         "Every read's count and bytes are compared with a VecDeque model per pipe, bytes beyond the returned count must stay untouched, every pipe is drained at the end, and syscalls on non-pipe descriptors must show up in the log of a hook registered after handle_syscalls. Further strata: thousands of pipes in one machine (descriptor numbers are 16-bit random draws: collisions only show there), write sources that span two adjacent areas, installation histories as in C13, neutral host-side operations; syscall numbers that equal a built-in one only in their low 16/32 bits belong to nobody built in; the guest's status flags survive every serviced system call.", MODEL_NOTE),
  "C15": ("model", "runtime monitoring of from_binary over generated well-formed ELF files with the file itself as the oracle", "2.2, 4/C15",
          "The harness writes ELF64 executables covering segment count/order/alignment/size classes/flags/extra headers/symbol-table corner cases and compares the loaded machine (area-list hook, mem_read_bytes, RIP, resolve_symbol) with the file's own bytes; the bundled binaries are checked the same way. p_paddr (0, random, shifted), p_align (0, 1, small powers of two) and empty PT_LOAD segments vary as real producers vary them.", MODEL_NOTE),
  "C11": ("events", "runtime monitoring with twin machines (execute() vs stepped) and per-step assertions on hooked loop state (count, RIP, finished, limit)", "2.2, 4/C11",
          "For generated programs x instruction limits x hook stop points, a stepped twin is checked after every step (count +1, RIP at the next instruction for non-transfers, finished exactly under the three conditions, refused steps change nothing) and must end in the same result, error text and full state as the execute() twin. Limits are also set, raised and lowered in the middle of a run (resume by execute()), programs include returns no call matches and init_stack lengths that are 8 mod 16, and the stepped twin sees neutral host-side operations the execute() twin never sees.", EVENT_NOTE),
  "C12": ("events", "runtime monitoring: online trace-specification checker over an event log written by instrumented native hooks and at the step() boundary, plus a hook-free twin replaying the observed modifications", "2.2, 4/C12",
-         "Instrumented hooks log what they see and modify the machine in guest-visible ways; after every step the log is checked against the protocol (phase order, at most once, mnemonic, RIP advanced, complete set unless handled/stopped/failed, step result, stop semantics, registration rules) and the machine against a hook-free twin on which the modifications are replayed around the same instruction. Before hooks may also move RIP (a non-branching instruction leaves it there, CALL pushes it), and failing hooks fail with ordinary, empty and non-printing errors.", EVENT_NOTE),
+         "Instrumented hooks log what they see and modify the machine in guest-visible ways; after every step the log is checked against the protocol (phase order, at most once, mnemonic, RIP advanced, complete set unless handled/stopped/failed, step result, stop semantics, registration rules) and the machine against a hook-free twin on which the modifications are replayed around the same instruction. Before hooks may also move RIP (a non-branching instruction leaves it there, CALL pushes it), and failing hooks fail with ordinary, empty and non-printing errors, or stop the run first and fail then (the step fails and the run is over all the same). A copy of the machine taken from inside a hook is stepped afterwards: the hooks registered at that moment run on it.", EVENT_NOTE),
  "C16": ("crash", "runtime monitoring in supervised worker processes: catch_unwind, RLIMIT_AS, counting allocator, progress watchdog with death/stall attribution", "2.3, 4/C16",
-         "from_binary is run on field-targeted, multi-field, truncated and random mutants of generated and bundled ELF files in address-space-limited workers; panics are caught, aborts / signals / stalls are attributed to the exact input through a shared progress page and confirmed by re-running the case alone.", CRASH_NOTE),
+         "from_binary is run on field-targeted, multi-field, truncated and random mutants of generated and bundled ELF files in address-space-limited workers; panics are caught, aborts / signals / stalls are attributed to the exact input through a shared progress page and confirmed by re-running the case alone. Mutation classes: one field, several fields anywhere, several fields of one program header together, the same field of every header, truncations, random bytes behind a valid magic.", CRASH_NOTE),
  "C18": ("events", "runtime monitoring against an independent tracer (own decode, own condition table) compared with the structured trace and call stack after every step; renderers called at every step", "2.2, 4/C18",
-         "Programs of jumps, conditional jumps on all conditions, direct/indirect calls, matched and unmatched returns, ending normally or in an error, are stepped; the expected trace entries (source, target, kind, run-length count, level) and call stack are maintained independently and compared after every step, and trace()/call_stack()/to_string() must return Ok at every step and in every terminal state. A deep-recursion stratum nests up to 33000 (thorough: 70000) calls and returns through them, compared at checkpoints.", EVENT_NOTE),
+         "Programs of jumps, conditional jumps on all conditions, direct/indirect calls, matched and unmatched returns, ending normally or in an error, are stepped; the expected trace entries (source, target, kind, run-length count, level) and call stack are maintained independently and compared after every step, and trace()/call_stack()/to_string() must return Ok at every step and in every terminal state. A deep-recursion stratum nests up to 33000 (thorough: 70000) calls and returns through them, compared at checkpoints. In the middle of a run the code may lose its execute permission or be overwritten: the next step fails and the trace - whose entries now point at undecodable code - must still render (a hang is caught by the progress watchdog).", EVENT_NOTE),
  "C19": ("crash", "runtime monitoring in supervised worker processes: catch_unwind around step() on hostile byte strings and states, progress watchdog", "2.3, 4/C19",
-         "Millions of (byte string, steered register/flag/memory state) inputs - uniform, prefix/opcode-structured over all opcode maps, and mutated encodings of implemented forms - are stepped once each on the hardware-mirrored layout, and for 1-6 steps on edge layouts (code/data/stack areas at both ends of the address space and around the non-canonical hole, zero-length areas, register values on every area edge); with the hooks on, whatever still unwinds, aborts or stalls is a crash and is reported with the exact input.", CRASH_NOTE),
+         "Millions of (byte string, steered register/flag/memory state) inputs - uniform, prefix/opcode-structured over all opcode maps, and mutated encodings of implemented forms - are stepped once each on the hardware-mirrored layout, and for 1-6 steps on edge layouts (code/data/stack areas at both ends of the address space and around the non-canonical hole, zero-length areas, register values on every area edge, machines that were never fully initialised, unallocatable resizes and revoked execute permission between steps); with the hooks on, whatever still unwinds, aborts or stalls is a crash and is reported with the exact input.", CRASH_NOTE),
  "C20": ("events", "runtime monitoring: twin machines in one process and replicas in 4 worker processes compared on every observable; used-register analysis bounds the comparison to defined registers", "2.2, 4/C20",
          "The same code and explicit inputs (a random subset of the registers, flags, memory, hooks, syscall handlers) are run on independently constructed machines in one process and in separate processes; results, error texts, defined registers, flags, memory, counts, traces must be identical, so any dependence on the constructor's random registers, HashMap seeds or other process-level randomness shows. Definedness is tracked per byte of every GPR (inputs are also written through 8/16-bit views; `mov dh,1` defines one byte), and one of the two twins additionally sees neutral host-side operations.", EVENT_NOTE),
 }
